@@ -888,31 +888,55 @@ static void sceneCornerCoincideCase(vh::Rng &r, bool thorough) {
     int geom = r.coin() ? 0 : 1, start = (int) r.range(0, 2);
     bool reversed = r.coin();
     double mh = 10.0 * r.range(2, 4), mw = 10.0 * r.range(3, 6), nw = 10.0 * r.range(2, 5), nh = 10.0 * r.range(2, 3);
-    double ax = 0, ay = 0, bx = 0, by = 0;
-    bool found = false;
-    for (int tries = 0; tries < 200 && !found; ++tries) {
-        ax = 5.0 * r.range(4, 17); ay = 5.0 * r.range(-12, (long) (mh - 10) / 5);
-        bx = 100 + 5.0 * r.range(6, 30); by = mh + nh + 10 + 5.0 * r.range(0, 16);
-        double turn = (100 - ax) * (by - mh) - (mh - ay) * (bx - 100);        // < 0: right turn at X (round M)
-        found = geom == 0 ? turn < 0 : turn > 0;
-    }
     double n1 = start == 0 ? 100 - 10.0 * r.range(1, 4) : start == 1 ? 100 : 100 + 5.0 * r.range(1, 3);   // N.maxX
-    if (found && geom == 1 && start == 0) {
-        // the initial bend is at N.BR = (n1, mh): it has to be a left turn there as well
-        found = (n1 - ax) * (by - mh) - (mh - ay) * (bx - n1) > 0 && ax + 10 <= n1 - 5;
-    }
+    // centres of the two end nodes of an edge whose turn at X goes round M (g == 0) or round N (g == 1)
+    auto sampleEnds = [&](int g, double &ax, double &ay, double &bx, double &by) -> bool {
+        for (int tries = 0; tries < 200; ++tries) {
+            ax = 5.0 * r.range(4, 17); ay = 5.0 * r.range(-12, (long) (mh - 10) / 5);
+            bx = 100 + 5.0 * r.range(6, 30); by = mh + nh + 10 + 5.0 * r.range(0, 16);
+            double turn = (100 - ax) * (by - mh) - (mh - ay) * (bx - 100);        // < 0: right turn at X (round M)
+            bool ok = g == 0 ? turn < 0 : turn > 0;
+            // g == 1, N to the left of X: the initial bend is at N.BR = (n1, mh), it has to be a left turn there as well
+            if (ok && g == 1 && start == 0) ok = (n1 - ax) * (by - mh) - (mh - ay) * (bx - n1) > 0 && ax + 10 <= n1 - 5;
+            if (ok) return true;
+        }
+        return false;
+    };
+    auto pathOf = [&](int g, unsigned a, unsigned b, bool rev) {
+        std::vector<std::pair<unsigned, int> > pts;
+        pts.push_back(std::make_pair(a, (int) EP::CENTRE));
+        if (start > 0 || g == 0) pts.push_back(std::make_pair(2u, sym.corner(EP::TL)));
+        if (start > 0 || g == 1) pts.push_back(std::make_pair(3u, sym.corner(EP::BR)));
+        pts.push_back(std::make_pair(b, (int) EP::CENTRE));
+        if (rev) std::reverse(pts.begin(), pts.end());
+        return pts;
+    };
+    double ax = 0, ay = 0, bx = 0, by = 0;
+    bool found = sampleEnds(geom, ax, ay, bx, by);
     sym.rect(ax - 10, ax + 10, ay - 10, ay + 10, q); sc.addNode(q[0], q[1], q[2], q[3]);     // 0 = A
     sym.rect(bx - 10, bx + 10, by - 10, by + 10, q); sc.addNode(q[0], q[1], q[2], q[3]);     // 1 = B
     sym.rect(100, 100 + mw, 0, mh, q);               sc.addNode(q[0], q[1], q[2], q[3]);     // 2 = M
     sym.rect(n1 - nw, n1, mh, mh + nh, q);           sc.addNode(q[0], q[1], q[2], q[3]);     // 3 = N
-    std::vector<std::pair<unsigned, int> > pts;
-    pts.push_back(std::make_pair(0u, (int) EP::CENTRE));
-    if (start > 0 || geom == 0) pts.push_back(std::make_pair(2u, sym.corner(EP::TL)));
-    if (start > 0 || geom == 1) pts.push_back(std::make_pair(3u, sym.corner(EP::BR)));
-    pts.push_back(std::make_pair(1u, (int) EP::CENTRE));
-    if (reversed) std::reverse(pts.begin(), pts.end());
-    if (found && pathValid(sc, pts)) addEdge(sc, pts, 100);
-    printf("X geom %d start %d reversed %d sym %d%d%d\n", geom, start, (int) reversed, (int) sym.tr, (int) sym.mx, (int) sym.my);
+    std::vector<std::pair<unsigned, int> > pts = pathOf(geom, 0, 1, reversed);
+    // second edge A' -> B' past the same point X (its own turn direction, its own listing order): the constructor then
+    // has to prune in two paths at once
+    int geom2 = -1;
+    std::vector<std::pair<unsigned, int> > pts2;
+    if (found && r.coin()) {
+        int g2 = r.coin() ? 0 : 1;
+        bool rev2 = r.coin();
+        for (int tries = 0; tries < 20 && geom2 < 0; ++tries) {
+            double ax2, ay2, bx2, by2;
+            if (!sampleEnds(g2, ax2, ay2, bx2, by2)) break;
+            sym.rect(ax2 - 10, ax2 + 10, ay2 - 10, ay2 + 10, q); sc.addNode(q[0], q[1], q[2], q[3]);     // 4 = A'
+            sym.rect(bx2 - 10, bx2 + 10, by2 - 10, by2 + 10, q); sc.addNode(q[0], q[1], q[2], q[3]);     // 5 = B'
+            pts2 = pathOf(g2, 4, 5, rev2);
+            bool ok = !rectsOverlap(sc.rs[4], sc.rs[0], 0) && !rectsOverlap(sc.rs[5], sc.rs[1], 0) && pathValid(sc, pts) && pathValid(sc, pts2);
+            if (ok) geom2 = g2; else { popNode(sc); popNode(sc); }
+        }
+    }
+    if (found && pathValid(sc, pts)) { addEdge(sc, pts, 100); if (geom2 >= 0) addEdge(sc, pts2, 100); }
+    printf("X geom %d start %d reversed %d sym %d%d%d geom2 %d\n", geom, start, (int) reversed, (int) sym.tr, (int) sym.mx, (int) sym.my, geom2);
     printHeader(sc);
     if (sc.edges.empty()) return;
     unsigned n = sc.nodes.size();
@@ -935,7 +959,7 @@ static void sceneCornerCoincideCase(vh::Rng &r, bool thorough) {
             move = false; canon = r.coin() ? 0 : 1;
         } else {
             canon = kind == 7 ? 1 : (int) r.range(0, 1);
-            id = kind == 7 ? 3u : (unsigned) r.range(0, 2);
+            id = kind == 7 ? 3u : r.coin(1, 4) ? (unsigned) r.range(0, n - 1) : (unsigned) r.range(0, 2);
             si.rect(sc.rs[id], c);
             double cur = canon == 0 ? (c[0] + c[1]) / 2 : (c[2] + c[3]) / 2;
             target = cur + 5.0 * r.range(-6, 6);
@@ -953,8 +977,8 @@ static void sceneCornerCoincideCase(vh::Rng &r, bool thorough) {
 //
 // prune-rule: many small constructed paths per case, each handed to a fresh TopologyConstraints
 // (whose constructor runs PruneDegenerate); only the pruning is observed.
-//   q <dim> <k> (<x> <y> <cx> <cy>)^k
-//   kept <m> <i_1> ... <i_m>
+//   q <dim> <k> (<x> <y> <cx> <cy>)^k        one line per path, before the constructor is called
+//   kept <m> <i_1> ... <i_m>                 one line per path, in the same order, afterwards
 // = the path as the rule sees it (position of each EdgePoint and centre of its node's rectangle) and
 // the indices of the points that survive the constructor. Shapes (canonical frame, then a random
 // symmetry of the square, listed from either end, either axis):
@@ -964,6 +988,8 @@ static void sceneCornerCoincideCase(vh::Rng &r, bool thorough) {
 //   apart     the same with N.BR 5 or 10 to the right of M.TL (no coincidence: nothing to prune)
 //   collinear A -> M.TL -> N.BR -> K.BR -> B with a third node K in N's row: three bend points on one
 //             line parallel to the x axis (pruned in an x pass only)
+// One to three edges (own end nodes, own listing order) pass the same corner(s), so the constructor's prune list
+// holds several points of several paths.
 // Generator-side filter (precondition, not a verdict): node rectangles do not overlap, no leg cuts a
 // node, and in a coincident pair exactly one of the two points is a tight strict turn (the states a
 // layout pass can end in; otherwise the library's own COLA_ASSERTs reject the input).
@@ -975,6 +1001,25 @@ static bool hValidTurn(const EP *u, const EP *v, const EP *w) {
            c * cross2(v->posX(), v->posY(), w->posX(), w->posY(), rx, ry) > 0;
 }
 
+// every bend that is not part of a coincident pair has to be a proper bend; of a coincident pair exactly one
+static bool pruneRuleInputOk(const topology::Edge *e) {
+    topology::ConstEdgePoints path;
+    e->getPath(path);
+    size_t k = path.size();
+    for (size_t i = 1; i + 1 < k; ++i) {
+        bool inZ = path[i - 1]->posX() == path[i]->posX() && path[i - 1]->posY() == path[i]->posY();
+        bool outZ = path[i + 1]->posX() == path[i]->posX() && path[i + 1]->posY() == path[i]->posY();
+        if (inZ && i >= 2) {
+            const EP *n = path[i - 2], *o = path[i - 1], *pp = path[i], *qq = path[i + 1];
+            double c = cross2(n->posX(), n->posY(), pp->posX(), pp->posY(), qq->posX(), qq->posY());
+            if (!(c != 0 && (hValidTurn(n, o, qq) != hValidTurn(n, pp, qq)))) return false;
+        } else if (!inZ && !outZ) {
+            if (!hValidTurn(path[i - 1], path[i], path[i + 1])) return false;
+        }
+    }
+    return true;
+}
+
 static void pruneRuleCase(vh::Rng &r) {
     int done = 0;
     for (int attempt = 0; attempt < 400 && done < 40; ++attempt) {
@@ -984,53 +1029,62 @@ static void pruneRuleCase(vh::Rng &r) {
         int shape = (int) r.range(0, 5);            // 0-3 pair, 4 apart, 5 collinear
         double mh = 10.0 * r.range(2, 4), mw = 10.0 * r.range(3, 9), nw = 10.0 * r.range(2, 5), nh = 10.0 * r.range(2, 3);
         double s = shape <= 3 ? 0 : 5.0 * r.range(1, 2);
-        double ax = 5.0 * r.range(4, 20), ay = 5.0 * r.range(-12, (long) (mh - 10) / 5);
-        double bx = 100 + 5.0 * r.range(0, 30), by = mh + 5.0 * r.range(0, 24);
-        sym.rect(ax - 10, ax + 10, ay - 10, ay + 10, q); sc.addNode(q[0], q[1], q[2], q[3]);     // 0 = A
-        sym.rect(bx - 10, bx + 10, by - 10, by + 10, q); sc.addNode(q[0], q[1], q[2], q[3]);     // 1 = B
-        sym.rect(100, 100 + mw, 0, mh, q);               sc.addNode(q[0], q[1], q[2], q[3]);     // 2 = M
-        sym.rect(100 + s - nw, 100 + s, mh, mh + nh, q); sc.addNode(q[0], q[1], q[2], q[3]);     // 3 = N
-        std::vector<std::pair<unsigned, int> > pts;
-        pts.push_back(std::make_pair(0u, (int) EP::CENTRE));
-        pts.push_back(std::make_pair(2u, sym.corner(EP::TL)));
-        pts.push_back(std::make_pair(3u, sym.corner(EP::BR)));
+        sym.rect(100, 100 + mw, 0, mh, q);               sc.addNode(q[0], q[1], q[2], q[3]);     // 0 = M
+        sym.rect(100 + s - nw, 100 + s, mh, mh + nh, q); sc.addNode(q[0], q[1], q[2], q[3]);     // 1 = N
+        std::vector<std::pair<unsigned, int> > mid;
+        mid.push_back(std::make_pair(0u, sym.corner(EP::TL)));
+        mid.push_back(std::make_pair(1u, sym.corner(EP::BR)));
         if (shape == 5) {
             double k0 = 100 + s + 5.0 * r.range(0, 3), kw = 10.0 * r.range(1, 3);
-            sym.rect(k0, k0 + kw, mh, mh + 10.0 * r.range(1, 3), q); sc.addNode(q[0], q[1], q[2], q[3]);   // 4 = K
-            pts.push_back(std::make_pair(4u, sym.corner(EP::BR)));
+            sym.rect(k0, k0 + kw, mh, mh + 10.0 * r.range(1, 3), q); sc.addNode(q[0], q[1], q[2], q[3]);   // 2 = K
+            mid.push_back(std::make_pair(2u, sym.corner(EP::BR)));
         }
-        pts.push_back(std::make_pair(1u, (int) EP::CENTRE));
-        if (r.coin()) std::reverse(pts.begin(), pts.end());
-        bool ok = true;
-        for (size_t i = 0; i < sc.rs.size() && ok; ++i) for (size_t j = i + 1; j < sc.rs.size() && ok; ++j) ok = !rectsOverlap(sc.rs[i], sc.rs[j], 0);
-        // pathValid rejects repeated (node, corner) pairs only; coincident points of different nodes are what we want
-        if (!ok || !pathValid(sc, pts)) continue;
-        addEdge(sc, pts, 100);
-        topology::ConstEdgePoints path;
-        sc.edges[0]->getPath(path);
-        // every bend that is not part of a coincident pair has to be a proper bend; of a coincident pair exactly one
-        size_t k = path.size();
-        for (size_t i = 1; i + 1 < k && ok; ++i) {
-            bool inZ = path[i - 1]->posX() == path[i]->posX() && path[i - 1]->posY() == path[i]->posY();
-            bool outZ = path[i + 1]->posX() == path[i]->posX() && path[i + 1]->posY() == path[i]->posY();
-            if (inZ && i >= 2) {
-                const EP *n = path[i - 2], *o = path[i - 1], *pp = path[i], *qq = path[i + 1];
-                double c = cross2(n->posX(), n->posY(), pp->posX(), pp->posY(), qq->posX(), qq->posY());
-                ok = c != 0 && (hValidTurn(n, o, qq) != hValidTurn(n, pp, qq));
-            } else if (!inZ && !outZ) {
-                ok = hValidTurn(path[i - 1], path[i], path[i + 1]);
+        // one to three edges past the same corner(s), each with its own end nodes and listing order
+        int wantEdges = (int) r.range(1, 3);
+        std::vector<std::vector<std::pair<unsigned, int> > > paths;
+        for (int e = 0; e < wantEdges; ++e) {
+            for (int tries = 0; tries < 30; ++tries) {
+                double ax = 5.0 * r.range(4, 20), ay = 5.0 * r.range(-12, (long) (mh - 10) / 5);
+                double bx = 100 + 5.0 * r.range(0, 30), by = mh + 5.0 * r.range(0, 24);
+                unsigned a = sc.nodes.size();
+                sym.rect(ax - 10, ax + 10, ay - 10, ay + 10, q); sc.addNode(q[0], q[1], q[2], q[3]);
+                sym.rect(bx - 10, bx + 10, by - 10, by + 10, q); sc.addNode(q[0], q[1], q[2], q[3]);
+                bool ok = true;
+                for (size_t i = 0; i < sc.rs.size() && ok; ++i) for (size_t j = std::max<size_t>(i + 1, a); j < sc.rs.size() && ok; ++j) ok = !rectsOverlap(sc.rs[i], sc.rs[j], 0);
+                std::vector<std::pair<unsigned, int> > pts;
+                pts.push_back(std::make_pair(a, (int) EP::CENTRE));
+                pts.insert(pts.end(), mid.begin(), mid.end());
+                pts.push_back(std::make_pair(a + 1, (int) EP::CENTRE));
+                if (r.coin()) std::reverse(pts.begin(), pts.end());
+                // pathValid rejects repeated (node, corner) pairs only; coincident points of different nodes are what we want
+                ok = ok && pathValid(sc, pts);
+                for (size_t f = 0; f < paths.size() && ok; ++f) ok = pathValid(sc, paths[f]);       // the new end nodes are not in the way
+                if (ok) {
+                    topology::EdgePoints eps;
+                    for (size_t i = 0; i < pts.size(); ++i) eps.push_back(new EP(sc.nodes[pts[i].first], (EP::RectIntersect) pts[i].second));
+                    topology::Edge probe(0, 100, eps);
+                    ok = pruneRuleInputOk(&probe);
+                }
+                if (ok) { paths.push_back(pts); break; }
+                popNode(sc); popNode(sc);
             }
         }
-        if (!ok) continue;
+        if (paths.empty()) continue;
+        for (size_t f = 0; f < paths.size(); ++f) addEdge(sc, paths[f], 100);
         vpsc::Dim dim = r.coin() ? vpsc::XDIM : vpsc::YDIM;
-        std::vector<std::pair<unsigned, int> > ids;
-        printf("q %d %zu", (int) dim, k);
-        for (size_t i = 0; i < k; ++i) {
-            const vpsc::Rectangle *rc = path[i]->node->rect;
-            printf(" %s %s %s %s", hx(path[i]->posX()).c_str(), hx(path[i]->posY()).c_str(), hx(rc->getCentreX()).c_str(), hx(rc->getCentreY()).c_str());
-            ids.push_back(std::make_pair(path[i]->node->id, (int) path[i]->rectIntersect));
+        std::vector<std::vector<std::pair<unsigned, int> > > ids(sc.edges.size());
+        for (size_t f = 0; f < sc.edges.size(); ++f) {
+            topology::ConstEdgePoints path;
+            sc.edges[f]->getPath(path);
+            printf("q %d %zu", (int) dim, path.size());
+            for (size_t i = 0; i < path.size(); ++i) {
+                const vpsc::Rectangle *rc = path[i]->node->rect;
+                printf(" %s %s %s %s", hx(path[i]->posX()).c_str(), hx(path[i]->posY()).c_str(), hx(rc->getCentreX()).c_str(), hx(rc->getCentreY()).c_str());
+                ids[f].push_back(std::make_pair(path[i]->node->id, (int) path[i]->rectIntersect));
+            }
+            printf("\n");
         }
-        printf("\n"); fflush(stdout);                  // (the library may print diagnostics of its own to stdout)
+        fflush(stdout);                                  // (the library may print diagnostics of its own to stdout)
         g_nodes = &sc.nodes; g_edges = &sc.edges; g_dim = (int) dim;
         unsigned n = sc.nodes.size();
         vpsc::Variables vs;
@@ -1039,18 +1093,20 @@ static void pruneRuleCase(vh::Rng &r) {
         vpsc::Constraints cs;
         {
             topology::TopologyConstraints t(dim, sc.nodes, sc.edges, nullptr, vs, cs);
-            topology::ConstEdgePoints after;
-            sc.edges[0]->getPath(after);
-            printf("kept %zu", after.size());
-            size_t from = 0;
-            for (size_t j = 0; j < after.size(); ++j) {
-                std::pair<unsigned, int> id = std::make_pair(after[j]->node->id, (int) after[j]->rectIntersect);
-                size_t i = from;
-                while (i < ids.size() && ids[i] != id) ++i;
-                printf(" %zu", i);                      // k = not a point of the input path
-                if (i < ids.size()) from = i + 1;
+            for (size_t f = 0; f < sc.edges.size(); ++f) {
+                topology::ConstEdgePoints after;
+                sc.edges[f]->getPath(after);
+                printf("kept %zu", after.size());
+                size_t from = 0;
+                for (size_t j = 0; j < after.size(); ++j) {
+                    std::pair<unsigned, int> id = std::make_pair(after[j]->node->id, (int) after[j]->rectIntersect);
+                    size_t i = from;
+                    while (i < ids[f].size() && ids[f][i] != id) ++i;
+                    printf(" %zu", i);                      // k = not a point of the input path
+                    if (i < ids[f].size()) from = i + 1;
+                }
+                printf("\n");
             }
-            printf("\n");
         }
         g_nodes = nullptr; g_edges = nullptr;
         for (size_t i = 0; i < cs.size(); ++i) delete cs[i];
@@ -1275,7 +1331,7 @@ int main(int argc, char **argv) {
         runIsolated([&]() { sceneCyclesCase(r, thorough); });
         vh::endCase();
     }
-    long nCoin = (thorough ? 500 : 100) * a.scale;
+    long nCoin = (thorough ? 300 : 100) * a.scale;
     for (long c = 0; c < nCoin; ++c, ++k) {
         if (!a.want(k)) continue;
         // caseRng streams of neighbouring case indices are shifts of one another (splitmix state + k*gamma):
@@ -1286,7 +1342,7 @@ int main(int argc, char **argv) {
         runIsolated([&]() { sceneCornerCoincideCase(r, thorough); });
         vh::endCase();
     }
-    long nRule = (thorough ? 120 : 30) * a.scale;
+    long nRule = (thorough ? 80 : 30) * a.scale;
     for (long c = 0; c < nRule; ++c, ++k) {
         if (!a.want(k)) continue;
         // caseRng streams of neighbouring case indices are shifts of one another (splitmix state + k*gamma):
